@@ -86,8 +86,8 @@ pub fn property() -> Property {
         assumptions: vec!["unicode-width is the width measure (as the property states)", "generated documents up to ~150 nodes"],
         hang_is_violation: false,
         subs: vec![
-            PropSub::new("grammar", 48_000, 480_000, move || doc_case(g.clone(), 1..=120, cfg_bounded(), false), check_width).boxed(),
-            PropSub::new("mutated", 24_000, 240_000, move || doc_case(g2.clone(), 1..=120, cfg_bounded(), true), check_width).boxed(),
+            PropSub::new("grammar", 48_000, 480_000, move || doc_case(g.clone(), 1..=120, cfg_bounded(), false), check_width).with_validity(|c| c.doc.valid()).boxed(),
+            PropSub::new("mutated", 24_000, 240_000, move || doc_case(g2.clone(), 1..=120, cfg_bounded(), true), check_width).with_validity(|c| c.doc.valid()).boxed(),
         ],
     }
 }
